@@ -256,7 +256,17 @@ def check_outcross(prog, rep):
                 else:
                     rep.unrec("R1-outcross", construct, "objective increment %s not modelled" % inc[:50])
             else:
-                rep.unrec("R1-outcross", construct, "objective function is not the within-row duplicate count")
+                # classified reformulation: equality of NEIGHBOURING columns counts duplicates only in sorted rows
+                ntxt = "".join(dump(n).split())
+                neigh = any(isinstance(x, ast.Compare) and isinstance(x.ops[0], ast.Eq) and "1:]" in "".join(dump(x).split()) and ":-1]" in "".join(dump(x).split())
+                            for x in ast.walk(n))
+                sorts = any(isinstance(x, ast.Call) and (dump(x.func).endswith(".sort") or dump(x.func) in ("numpy.sort", "sorted")) for x in ast.walk(n))
+                if neigh and not sorts:
+                    rep.violate("R1-outcross", construct, "the objective counts equal NEIGHBOURING entries of a row without sorting it: a repeat stored in non-adjacent columns "
+                                "([a, b, a]) scores 0, so the duplicate count can increase and the search stops although an exchange would remove a self-pairing",
+                                where(f, n), "sum over rows of (unique counts - 1)", ntxt[-70:])
+                else:
+                    rep.unrec("R1-outcross", construct, "objective function is not the within-row duplicate count")
 
 
 def check_tiled(prog, rep):
@@ -499,6 +509,15 @@ def check_axis(prog, rep):
         rep.unrec("R4-axis", f.qualname, "expected one loop over slices")
         return
     lp = loops[0]
+    # the axis collection is re-iterated by the slice generator (membership test at every recursion node): it must be a real tuple / list
+    for n in walk_no_nested(f.node):
+        if isinstance(n, ast.Assign) and len(n.targets) == 1 and dump(n.targets[0]) == axis:
+            v = n.value
+            if isinstance(v, ast.GeneratorExp) or (isinstance(v, ast.Call) and dump(v.func) in ("map", "filter", "zip", "iter", "reversed")):
+                rep.violate("R4-axis", f.qualname, "the axis collection is rebound to a one-shot iterator (%s): the slice generator tests membership in it once per node, so after the "
+                            "first pass the requested axes are no longer fixed and values move between the requested slices" % dump(v)[:50], where(f, n),
+                            "tuple(%s)" % dump(v)[:40], dump(v)[:50])
+                return
     if dump(lp.iter) != "sliceaxisix(%s.shape, %s)" % (a, axis):
         rep.violate("R4-axis", f.qualname, "slices come from %s, not from sliceaxisix(%s.shape, %s)" % (dump(lp.iter), a, axis), where(f, lp),
                     "sliceaxisix(%s.shape, %s)" % (a, axis), dump(lp.iter))
